@@ -1760,7 +1760,7 @@ var entries = []entry{
 	{"lend", "*", nil},
 	{"auctionsV2", "Keeper", []string{"PlaceDutchAuctionBid", "LimitOrderBid", "PlaceEnglishAuctionBid", "CloseEnglishAuction", "DepositLimitAuctionBid", "CancelLimitAuctionBid", "WithdrawLimitAuctionBid"}},
 	{"auction", "Keeper", []string{"PlaceDutchAuctionBid", "CloseDutchAuction", "PlaceSurplusAuctionBid", "closeSurplusAuction", "PlaceDebtAuctionBid", "closeDebtAuction", "PlaceLendDutchAuctionBid", "CloseDutchLendAuction"}},
-	{"liquidationsV2", "Keeper", []string{"LiquidateIndividualVault", "LiquidateIndividualBorrow"}},
+	{"liquidationsV2", "Keeper", []string{"LiquidateIndividualVault", "LiquidateIndividualBorrow", "LiquidateVaults", "LiquidateBorrows"}},
 	{"esm", "Keeper", []string{"SetUpDebtRedemptionForCollector", "SetUpCollateralRedemptionForVault", "SetUpCollateralRedemptionForStableVault", "CalculateCollateral"}},
 	{"collector", "Keeper", []string{"GetAmountFromCollector", "DecreaseNetFeeCollectedData", "UpdateCollector", "SetNetFeeCollectedData", "LockerIterateRewards", "WasmMsgGetSurplusFund"}},
 	{"rewards", "Keeper", []string{"CalculateLockerRewards", "CalculateVaultInterest"}},
